@@ -37,6 +37,14 @@ class Faulty(EventProcessor):
             raise self.exc("observer failure at shutdown")
 
 
+class UnhashableFaulty(Faulty):
+    """... written like a @dataclass (eq=True): it compares by value and therefore is not hashable."""
+    __hash__ = None
+
+    def __eq__(self, other):
+        return type(other) is type(self) and (self.k, self.every, self.at_shutdown) == (other.k, other.every, other.at_shutdown)
+
+
 class AsyncFaulty(AsyncEventProcessor):
     def __init__(self, k=None, every=False, at_shutdown=False, exc=RuntimeError):
         self.k, self.every, self.at_shutdown, self.n, self.exc = k, every, at_shutdown, 0, exc
@@ -113,12 +121,17 @@ def run(tier, seed):
     progs.append((IR.prog("top", [copy.deepcopy(A), IR.graph_node(inner, name="inner", inputs=["a"], outputs=["ans", "b"])]), [["x", "in.x"]], "pausing-nested"))
     streams = []
     n_faults = 0
+    n_failing = 0
     for prog, prov, kind in progs:
         p2 = copy.deepcopy(prog)
-        if rng.random() < 0.3:
+        if rng.random() < 0.35:
             paths = [p for p, n in IR.all_nodes(p2) if n["kind"] == "func"]
             if paths:
-                dict(IR.all_nodes(p2))[rng.choice(paths)]["fail_at"] = [1]
+                nd = dict(IR.all_nodes(p2))[rng.choice(paths)]
+                nd["fail_at"] = [1]
+                # the node's exception: no message / falsy / plain / refusing attribute assignment, in turn
+                nd["exc_kind"] = n_failing % 4
+                n_failing += 1
         for mode in ("sync", "async"):
             if kind.startswith("pausing") and mode == "sync":
                 continue
@@ -138,7 +151,7 @@ def run(tier, seed):
             cases = [("at", k) for k in ks] + [("every", None), ("shutdown", None)]
             for what, k in cases:
                 for fk in (("sync", "async") if mode == "async" else ("sync",)):
-                    cls = AsyncFaulty if fk == "async" else Faulty
+                    cls = AsyncFaulty if fk == "async" else (UnhashableFaulty if n_faults % 2 else Faulty)
                     bad = cls(k=k, every=(what == "every"), at_shutdown=(what == "shutdown"), exc=FAILURES[n_faults % len(FAILURES)])
                     healthy = events.AsyncRecorder(yields=rng.choice([1, 2, 3])) if (mode == "async" and rng.random() < 0.5) else events.Recorder()
                     first = rng.random() < 0.7
@@ -180,14 +193,14 @@ def run(tier, seed):
     ctx.sample({"events_in_baseline": len(streams[0]["events"]) if streams else 0, "fault_kinds": ["at k (every k of the baseline stream)", "every event", "shutdown"]})
     ctx.assumptions += ["Observers.tla (best-effort dispatch) is model-checked for every fault set over (processor, position) incl. shutdown; two wrong dispatch designs must be caught",
                         "the baseline is the same run without any processor; invocation order of the harness bodies is part of the compared outcome"]
-    return ctx.finish(rule="fault enumeration: for each generated program (flat/nested/gated/cyclic, optionally with a failing node) and runner, EVERY event index of the baseline stream (capped at 14 in quick), failure on every event, failure at shutdown, sync and async faulty processors raising several exception types (RuntimeError, TimeoutError, OSError, ...), faulty processor registered before or after a healthy one; programs that pause at an interrupt; distinct = structural hash of (program, provided, runner)")
+    return ctx.finish(rule="fault enumeration: for each generated program (flat/nested/gated/cyclic, optionally with a failing node) and runner, EVERY event index of the baseline stream (capped at 14 in quick), failure on every event, failure at shutdown, sync and async faulty processors raising several exception types (RuntimeError, TimeoutError, OSError, ...), faulty processor (hashable or comparing by value, hence unhashable) registered before or after a healthy one; failing nodes raising message-less / falsy / plain / attribute-refusing exceptions in turn; programs that pause at an interrupt; distinct = structural hash of (program, provided, runner)")
 
 
 def replay(path):
     w = json.load(open(path))["witness"]
     j = w["job"]
     base, _, _ = predict.try_real(j)
-    cls = AsyncFaulty if w.get("faulty_kind") == "async" else Faulty
+    cls = AsyncFaulty if w.get("faulty_kind") == "async" else UnhashableFaulty
     bad = cls(k=w.get("k"), every=w.get("fault") == "every", at_shutdown=w.get("fault") == "shutdown")
     healthy = events.Recorder()
     o, _, _ = predict.try_real(j, event_processors=[bad, healthy] if w.get("faulty_first", True) else [healthy, bad])
